@@ -214,6 +214,8 @@ def _plsr_case(draw, ykind, tier, metamorphic=False):
          "xkind": "normal" if metamorphic else draw(st.sampled_from(["normal", "normal", "int"])),
          "iters": draw(st.sampled_from([None, None, 2, 5])),
          "n_new": draw(st.integers(1, 5)), "lays": draw(LAYS)}
+    # a constant FIRST Y column while another column carries the signal (class of the fixed defect 441251a)
+    c["const0"] = bool(c["p"] is not None and c["p"] >= 2 and not metamorphic and draw(st.integers(0, 4)) == 0)
     if metamorphic:
         c["shiftX"] = draw(st.lists(st.integers(-32, 32), min_size=gen.prod(sides), max_size=gen.prod(sides)))
         c["shiftY"] = draw(st.lists(st.integers(-32, 32), min_size=c["p"] or 1, max_size=c["p"] or 1))
@@ -231,6 +233,8 @@ def _plsr_data(case):
         Y = contract(X, rs.standard_normal(sides + (ycols,))) + 0.3 * rs.standard_normal((n, ycols))
     else:
         Y = rs.standard_normal((n, ycols))
+    if case.get("const0"):
+        Y[:, 0] = 1.5
     if p is None:
         Y = Y[:, 0]
     Xnew = _data(case["seed"] + 5, (case["n_new"],) + sides, "normal")
@@ -310,7 +314,7 @@ def _plsr_labels(case, extra=()):
     order = len(case["sides"]) + 1
     return {"nontrivial": case["ncomp"] >= 2 or order >= 3,
             "labels": [f"order={order}", f"ncomp={case['ncomp']}", f"p={case['p']}", f"iters={case['iters']}", f"xkind={case['xkind']}",
-                       f"lay_fit={case['lays'][0]}", f"lay_use={case['lays'][2]}"] + list(extra)}
+                       f"lay_fit={case['lays'][0]}", f"lay_use={case['lays'][2]}", f"const_first_Y_col={bool(case.get('const0'))}"] + list(extra)}
 
 
 def o_plsr_scores(case):
@@ -397,7 +401,8 @@ def o_plsr_int(case):
     else:
         Yi, Yf = _cast(Y, "int64" if case["pdtype"] in ("uint8", "bool") else case["pdtype"])
         if not np.any(Yf - Yf.mean(axis=0)):
-            discard("integer Y is constant")
+            # no signal at all in Y: 0/0 loadings, NaN handed to lstsq (LinAlgError or no return) -> not executed
+            discard("integer Y is constant in every column")
     if case["ncomp"] > _support(Xf):
         discard("components not supported by the centred (integer) data")
     ci = dict(case, xkind="int")
